@@ -91,7 +91,8 @@ TStep ==
      ELSE LET post == Post(e, m)
               cs == C11(e, m, post) \o C14(e) \o C13(e) \o C12(e)
           IN /\ bad' = IF cs = <<>> THEN bad
-                         ELSE Append(bad, BadRecI(l, e, cs, [prevgcroots |-> IF "gcroots" \in DOMAIN prev THEN prev.gcroots ELSE <<>>]))
+                         ELSE Append(bad, BadRecI(l, e, cs, [prevgcroots |-> IF "gcroots" \in DOMAIN prev THEN prev.gcroots ELSE <<>>,
+                                                        prevgc |-> IF "gc" \in DOMAIN prev THEN prev.gc ELSE <<>>]))
              /\ m' = IF e.op = "crash" THEN m ELSE IF cs = <<>> THEN post ELSE ObsM(e.st)   \* resynchronise
              /\ prev' = IF e.op = "crash" THEN prev ELSE e.st
              /\ agree' = IF "tw" \in DOMAIN e THEN Same(e.st, e.tw) ELSE agree
